@@ -40,6 +40,7 @@ func Activate(stderr io.Writer, spawnCfg *daemondefs.SpawnConfig) (daemondefs.Cl
 	sockpath := spawnCfg.SockPath
 	cl := NewClient(sockpath)
 	status, err := detectDaemon(sockpath, cl)
+	verifPause("shell.detected", sockpath, int(status))
 	shouldSpawn := false
 
 	switch status {
@@ -50,7 +51,9 @@ func Activate(stderr io.Writer, spawnCfg *daemondefs.SpawnConfig) (daemondefs.Cl
 		return cl, fmt.Errorf("socket file %s inaccessible: %w", sockpath, err)
 	case connectionRefused:
 		fmt.Fprintf(stderr, connectionRefusedFmt, sockpath)
+		verifPause("shell.before-remove", sockpath, 0)
 		err := os.Remove(sockpath)
+		verifPause("shell.after-remove", sockpath, 0)
 		if err != nil {
 			return cl, fmt.Errorf("failed to remove socket file: %w", err)
 		}
@@ -72,16 +75,19 @@ func Activate(stderr io.Writer, spawnCfg *daemondefs.SpawnConfig) (daemondefs.Cl
 		return cl, nil
 	}
 
+	verifPause("shell.before-spawn", sockpath, 0)
 	err = spawn(spawnCfg)
 	if err != nil {
 		return cl, fmt.Errorf("failed to spawn daemon: %w", err)
 	}
+	verifPause("shell.spawned", sockpath, 0)
 
 	// Wait for daemon to come online
 	start := time.Now()
 	for time.Since(start) < daemonSpawnTimeout {
 		cl.ResetConn()
 		status, err := detectDaemon(sockpath, cl)
+		verifPause("shell.retry-detected", sockpath, int(status))
 
 		switch status {
 		case daemonOK:
